@@ -159,6 +159,19 @@ def check_random_sample(spec):
     ensure(r1 == r2, f"{desc}: recomputing the same collection gives {short(r2)} after {short(r1)}", "recompute-differs", **sig)
     ensure(r1 == r3, f"{desc}: rebuilt + threaded scheduler gives {short(r3)}, sync gave {short(r1)}", "scheduler-or-rebuild-differs", **sig)
     ensure(is_subsequence(r1, data), f"{desc} = {short(r1)} is not a subsequence of the bag", "not-a-subsequence", **sig)
+    # the same bag sampled with the same seed and OTHER probabilities (and the same probability with another seed), all in
+    # one graph: every sample is what it is when computed alone
+    import dask
+
+    others = [(p, spec["seed"]) for p in (0.0, 1.0, round(1.0 - prob, 3)) if p != prob] + [(prob, spec["seed"] + 1)]
+    with impl("random_sample siblings in one graph", together=True, **sig):
+        sibs = [b.random_sample(p, random_state=(random.Random(sd) if spec["rs"] == "Random" else sd)) for p, sd in others]
+        alone = [x.compute(scheduler="sync") for x in sibs]
+        tog = dask.compute(s, *sibs, scheduler="sync")
+    ensure(tog[0] == r1, f"{desc}: computed in one graph with random_sample{others} of the same bag gives {short(tog[0])}, alone {short(r1)}", "together-differs", **sig)
+    for (p, sd), a, t in zip(others, alone, tog[1:]):
+        ensure(a == t, f"random_sample(prob={p}, random_state={sd}) computed in one graph with {desc} gives {short(t)}, alone {short(a)}", "together-differs", **sig)
+    ensure(alone[others.index((1.0, spec["seed"]))] == list(data) if (1.0, spec["seed"]) in others else True, "random_sample(1.0) must keep every element", "prob-one-drops", **sig)
 
 
 def nontrivial(spec):
